@@ -666,3 +666,38 @@ def dict_input_tuple(ctx):
         if want not in keys:
             ctx.violate(q, 'position %d of the input tuple, which transaction_create reads as %s, is filled from dictionary key %s instead of %r' % (k, role, keys, want), el,
                         'the importing cosigner rebuilds and signs a spend of prev_txid:<input position>: the earlier signature no longer matches')
+
+
+@PROP.obligation('C10.create-account', canaries=[
+    mut.Canary('the account a wallet was created for is not recorded', 'wallets', lambda tree: _drop_default_account(tree)),
+])
+def create_account(ctx):
+    """Cosigner wallets created with account_id=k hold the other cosigners' ACCOUNT-level public keys of account k. The wallet row that
+    Wallet._create writes records that account as the wallet's default (DbWallet(default_account_id=account_id)): the parent wallet of a
+    multisig set has no main key to fall back on, and with default account 0 the cosigner that holds its private master key derives its
+    own key from account 0' while the others are fixed at k' - every cosigner wallet then shows another address for the same path."""
+    q = 'wallets:Wallet._create'
+    fn = ctx.repo.func(q)
+    if 'account_id' not in [a.arg for a in fn.args.args]:
+        ctx.undecided('Wallet._create has no account_id parameter')
+    rows = [c for c in ast.walk(fn) if isinstance(c, ast.Call) and norm(c.func) == 'DbWallet']
+    if len(rows) != 1:
+        ctx.undecided('Wallet._create: %d DbWallet(...) rows, expected 1' % len(rows))
+    kw = {k.arg: k.value for k in rows[0].keywords}
+    v = kw.get('default_account_id')
+    ctx.saw('DbWallet(... default_account_id=%s)' % (norm(v) if v is not None else 'absent'))
+    later = [a for a in ast.walk(fn) if isinstance(a, ast.Assign) and any('default_account_id' in norm(t) for t in a.targets) and any(isinstance(x, ast.Name) and x.id == 'account_id' for x in ast.walk(a.value))]
+    ok = (v is not None and any(isinstance(x, ast.Name) and x.id == 'account_id' for x in ast.walk(v))) or bool(later)
+    ctx.require(ok, q, 'the wallet row is written without the account the wallet is created for (default_account_id=%s)' % (norm(v) if v is not None else 'absent'), rows[0],
+                'three cosigner wallets created with account_id=2 give three different addresses for key_for_path([0, 0]): the holder of the private master key derives its own key from account 0')
+
+
+def _drop_default_account(tree):
+    for n in ast.walk(tree):
+        if isinstance(n, ast.FunctionDef) and n.name == '_create':
+            for c in ast.walk(n):
+                if isinstance(c, ast.Call) and isinstance(c.func, ast.Name) and c.func.id == 'DbWallet':
+                    before = len(c.keywords)
+                    c.keywords = [k for k in c.keywords if k.arg != 'default_account_id']
+                    return len(c.keywords) < before
+    return False
